@@ -26,7 +26,9 @@ func buildCallGraph(statements []ast.Statement) callGraph {
 		callerName := decl.Name.Value
 		callees := extractCallees(decl.Block)
 		if len(callees) > 0 {
-			graph[callerName] = callees
+			// A Fastly subroutine may be declared more than once (the bodies are concatenated),
+			// each declaration adds its callees
+			graph[callerName] = append(graph[callerName], callees...)
 		}
 	}
 
